@@ -466,7 +466,10 @@ func (s *Shard) SearchPoints(searchRequest models.SearchRequest) ([]models.Searc
 	if searchRequest.Limit == 0 {
 		searchRequest.Limit = len(finalResults)
 	}
-	finalResults = finalResults[min(searchRequest.Offset, len(finalResults)):min(searchRequest.Offset+searchRequest.Limit, len(finalResults))]
+	start := min(searchRequest.Offset, len(finalResults))
+	// Offset + limit may overflow, so we bound the limit by what is left
+	end := start + min(searchRequest.Limit, len(finalResults)-start)
+	finalResults = finalResults[start:end]
 	// ---------------------------
 	return finalResults, nil
 }
